@@ -28,7 +28,9 @@ CONSTANTS N,        \* capacity
           MaxArg,   \* largest length of slice / iterator / array arguments
           Families  \* which operation families Next offers (subset of AllFamilies)
 
-AllFamilies == {"single", "positional", "bulk", "fill", "extend", "access", "iter", "drain", "ctor", "faults"}
+AllFamilies == {"single", "positional", "bulk", "fill", "extend", "access", "iter", "drain", "ctor", "faults", "io"}
+\* the byte-stream family runs on buffers of plain bytes (Copy, no destructor): exclusive
+Bytes == Families = {"io"}
 
 VARIABLES start, size, slots,   \* the buffer
           S,                     \* L0 state
@@ -67,7 +69,7 @@ NoFault == [k |-> "none", n |-> 0]
 R0(st, sz, sl, n) == [start |-> st, size |-> sz, slots |-> sl, cbs |-> <<>>, unw |-> FALSE, fired |-> FALSE,
                       nid |-> n, cnt |-> [drop |-> 0, clone |-> 0, gen |-> 0, iter |-> 0], last |-> 0,
                       ret |-> [k |-> "unit", ids |-> <<>>, ids2 |-> <<>>, slots |-> <<>>, n |-> 0, b |-> FALSE, s |-> "", s2 |-> ""],
-                      gone |-> FALSE]
+                      gone |-> FALSE, bytes |-> Bytes]
 KindCode(k) == CASE k = "drop" -> 0 [] k = "clone" -> 1 [] k = "gen" -> 2 [] k = "iter" -> 3 [] OTHER -> 4
 Hit(r, kind, f) == f.k = kind /\ r.cnt[kind] + 1 = f.n /\ ~r.fired
 Cb(k, id, src) == [k |-> k, id |-> id, src |-> src]
@@ -80,6 +82,7 @@ RetN(n) == [RetUnitR EXCEPT !.k = "n", !.n = n]
 
 \* a destructor runs on element x (the panic, if armed here, happens after the destructor's effect)
 DropOne(r, x, f) ==
+    IF r.bytes THEN r ELSE
     LET hit == Hit(r, "drop", f) IN
     [r EXCEPT !.cbs = @ \o <<Cb("drop", x, 0)>> \o (IF hit THEN <<Cb("panic", x, 0)>> ELSE <<>>),
               !.cnt.drop = @ + 1, !.unw = @ \/ hit, !.fired = @ \/ hit]
@@ -89,6 +92,7 @@ DropMany(r, xs, f) == IF xs = <<>> THEN r ELSE DropMany(DropOne(r, Head(xs), f),
 
 \* T::clone on element src; r.last is the clone
 CloneOne(r, src, f) ==
+    IF r.bytes THEN [r EXCEPT !.last = src] ELSE
     IF Hit(r, "clone", f)
     THEN [r EXCEPT !.cbs = @ \o <<Cb("panic", src, 1)>>, !.cnt.clone = @ + 1, !.unw = TRUE, !.fired = TRUE, !.last = 0]
     ELSE [r EXCEPT !.cbs = @ \o <<Cb("clone", r.nid, src)>>, !.cnt.clone = @ + 1, !.nid = @ + 1, !.last = r.nid]
@@ -134,7 +138,7 @@ Obs(st, sz, sl, S0, e0) ==
     LET p == SlicesOf(st, sz)
         idx == p[1] \o p[2]
         ids == IdsAt(sl, idx) IN
-    [obs |-> TRUE, seq |-> ids, vals |-> [k \in 1..Len(ids) |-> NewVal(S0, e0, ids[k])], slots |-> idx,
+    [obs |-> TRUE, seq |-> ids, vals |-> [k \in 1..Len(ids) |-> IF e0.ty = "b" THEN ids[k] ELSE NewVal(S0, e0, ids[k])], slots |-> idx,
      len |-> sz, empty |-> (sz = 0), full |-> (sz = N), split |-> Len(p[1]), cap |-> N]
 NoObs == [obs |-> FALSE, seq |-> <<>>, vals |-> <<>>, slots |-> <<>>, len |-> 0, empty |-> FALSE, full |-> FALSE, split |-> 0, cap |-> 0]
 
@@ -495,6 +499,37 @@ NextCtor ==
                         "from_iter", <<>>, 0, 0, [x \in 1..k |-> x % 3])
 
 (***************************************************************************)
+(* Byte-stream I/O: io.rs / embedded_io.rs (the three trait families share *)
+(* these bodies).                                                          *)
+(***************************************************************************)
+IoEv(op, r, i, vals, ret) ==
+    LET e0 == [Ev0 EXCEPT !.ty = "b", !.op = op, !.acc = "std", !.i = i, !.vals = vals, !.unw = r.unw,
+                          !.ret = IF r.unw THEN RetK("panic") ELSE ret, !.allocs = IF r.unw THEN -1 ELSE 0]
+    IN [e0 EXCEPT !.post = Obs(r.start, r.size, r.slots, S, e0)]
+NextIO ==
+    /\ Bytes /\ Idle
+    /\ \/ \E k \in 0..MaxArg :                                    \* write: extend_from_slice, Ok(len)
+            LET data == [x \in 1..k |-> 100 + x]
+                r == ExtendFromSlice(Rnow, data, NoFault) IN
+            Commit(IoEv("write", r, 0, data, RetN(k)), r) /\ UNCHANGED view
+       \/ Commit(IoEv("flush", Rnow, 0, <<>>, RetK("ok")), Rnow) /\ UNCHANGED view
+       \/ \E k \in 0..(N + 2) :                                     \* read: copy from both slices, truncate_front
+            LET p == SlicesOf(start, size)
+                c1 == Min(Len(p[1]), k)
+                c2 == Min(Len(p[2]), k - c1)
+                got == IdsAt(slots, SubSeq(p[1], 1, c1) \o SubSeq(p[2], 1, c2))
+                r == TruncFront(Rnow, USub(size, c1 + c2), NoFault) IN
+            Commit(IoEv("read", r, k, <<>>, [RetN(c1 + c2) EXCEPT !.ids = got]), r) /\ UNCHANGED view
+       \/ LET p == SlicesOf(start, size)                            \* fill_buf: the front slice unless it is empty
+               sl == IF p[1] # <<>> THEN p[1] ELSE p[2] IN
+           Commit(IoEv("fill_buf", Rnow, 0, <<>>, [RetK("ids") EXCEPT !.ids = IdsAt(slots, sl), !.slots = sl]), Rnow) /\ UNCHANGED view
+       \/ \E k \in 0..(N + 2) \cup {Top} :                          \* consume: drain(..min(amt, len)), dropped at once
+            LET amt == Min(k, size)
+                d == DrainNew(Rnow, 0, amt)
+                r == DrainDrop([Rnow EXCEPT !.size = 0], d, NoFault) IN
+            Commit(IoEv("consume", r, k, <<>>, RetUnitR), r) /\ UNCHANGED view
+
+(***************************************************************************)
 (* Views: a drain or an iterator lives across several calls.               *)
 (***************************************************************************)
 \* how the view will be exercised: canonical range forms get every interleaving of next / next_back
@@ -588,7 +623,8 @@ InitLayout(st, sz) ==
         p == SlicesOf(st, sz)
         buf == [cap |-> N, seq |-> IdsAt(sl, p[1] \o p[2]), slot |-> p[1] \o p[2], split |-> Len(p[1]), lock |-> -1] IN
     /\ start = st /\ size = sz /\ slots = sl
-    /\ S = [InitS EXCEPT !.bufs = (0 :> buf), !.nd = [id \in 1..sz |-> 0], !.val = [id \in 1..sz |-> PayloadOf(id)]]
+    /\ S = IF Bytes THEN [InitS EXCEPT !.bufs = (0 :> buf)]
+           ELSE [InitS EXCEPT !.bufs = (0 :> buf), !.nd = [id \in 1..sz |-> 0], !.val = [id \in 1..sz |-> PayloadOf(id)]]
     /\ nid = sz + 1
     /\ lay0 = [n |-> N, start |-> st, size |-> sz]
 
@@ -607,7 +643,8 @@ AccessA    == ~Finished /\ NextAccess
 Ctor       == ~Finished /\ NextCtor
 ViewNewA   == ~Finished /\ NextViewNew
 ViewStepA  == ~Finished /\ NextViewStep
-NextCall == Single \/ Positional \/ Bulk \/ Fill \/ Extend \/ AccessA \/ Ctor \/ ViewNewA \/ ViewStepA
+IOA        == ~Finished /\ NextIO
+NextCall == IOA \/ Single \/ Positional \/ Bulk \/ Fill \/ Extend \/ AccessA \/ Ctor \/ ViewNewA \/ ViewStepA
 Spec == Init /\ [][NextCall]_vars
 
 (***************************************************************************)
@@ -621,13 +658,13 @@ MechInv ==
     /\ size <= N /\ (N > 0 => start < N)
     /\ (view.on /\ view.kind = "drain" => size = 0)
 \* panic-free behaviours: exactly the occupied slots hold the buffer's live elements
-OccInv == (S.taint = "" /\ ~view.on) =>
+OccInv == (S.taint = "" /\ ~view.on /\ ~Bytes) =>
               /\ \A k \in Occupied : slots[k] > 0 /\ Nd(S, slots[k]) = 0
               /\ \A k, m \in Occupied : k # m => slots[k] # slots[m]
 
 \* scenario output: one JSON line per finished behaviour
 \* (inputs, plus what the mechanism predicts for the layout afterwards - used for drift notes only)
-Slim(e) == [op |-> e.op, i |-> e.i, j |-> e.j, nids |-> Len(e.ids), vals |-> e.vals, bs |-> e.bs, be |-> e.be,
+Slim(e) == [ty |-> e.ty, op |-> e.op, i |-> e.i, j |-> e.j, nids |-> Len(e.ids), vals |-> e.vals, bs |-> e.bs, be |-> e.be,
             fk |-> e.fk, fn |-> e.fn, unw |-> e.unw, retk |-> e.ret.k, obs |-> e.post.obs, seq |-> e.post.seq,
             slots |-> e.post.slots]
 EmitScenario == Finished' => PrintT("SCN " \o ToJson([lay |-> lay0, evs |-> [k \in 1..Len(hist') |-> Slim(hist'[k])]]))
